@@ -113,6 +113,19 @@ def case(item) -> tuple:
                 stored = ev.predicate
                 if stored.is_vacuous:
                     return ('illtyped', 'vacuous', None, None)
+                # the same event reached by the other public routes: copies with but() and the plain constructor
+                routes = {'but(predicate=)': lambda: HplSimpleEvent.publish('t', alias=alias).but(predicate=HplPredicateExpression(gen.build(spec))),
+                          'but(alias=)': lambda: HplSimpleEvent.publish('t', predicate=HplPredicateExpression(gen.build(spec))).but(alias=alias),
+                          'constructor': lambda: HplSimpleEvent(name='t', alias=alias, predicate=HplPredicateExpression(gen.build(spec)), event_type=ev.event_type)}
+                for rname, mk in routes.items():
+                    try:
+                        other = mk()
+                    except TypeError:
+                        continue  # route not offered with these keywords
+                    if other.predicate.is_vacuous:
+                        continue
+                    if alias in sem.free_vars(other.predicate.condition) or alias in other.external_references():
+                        return ('finding', f'event-alias-not-normalised:{rname}@{alias}@{text}', f'event t as {alias} {{{text}}} built through {rname} stores {other.predicate} (still mentions @{alias}; external_references() = {sorted(other.external_references())}); publish() stores {stored}', rep)
                 if alias in sem.free_vars(stored.condition):
                     return ('finding', f'event-alias-not-normalised@{alias}@{text}', f'event t as {alias} {{{text}}} stores {stored} which still mentions @{alias}', rep)
                 if alias in ev.external_references():
